@@ -321,6 +321,153 @@ def in_band(case, pt) -> bool:
     return near_integer(ty) or near_integer(tx)
 
 
+# ------------------------------------------------------------------------------------------------
+# round 5/6 hardening helpers: decades (the same world in other units), exact doubles, memory layouts
+# ------------------------------------------------------------------------------------------------
+RADII_KEYS = ("radius", "inner", "outer", "outer2", "major", "inner_major", "outer_major")
+# observation keys that carry SCALED-unit values (everything else is in pixel units / discrete)
+DEC_PAIR_KEYS = {"geom": ("grid", "snap", "roundtrip", "scaled", "grid_scaled"),
+                 "grid": GRID_OBS, "grid1d": (), "shape": ()}
+DEC_FLAT_KEYS = {"geom": ("minima", "maxima", "shape_scaled", "extent"), "grid": (),  # `central_scaled` is in pixel units
+                 "grid1d": ("extent", "uniform", "scaled", "grid"), "shape": ("origin", "scales")}
+DEC_K_MAX = 480  # |k| of a decade case: squares of (value * 2^k) stay inside the normal double range
+CONF_KEYS = {"flip": ("general", "fits", "flip_for_ds9"), "nbo": ("general", "structures", "native_binned_only"),
+             "rpc": ("general", "grid", "remove_projected_centre")}
+MASK_LAYOUTS = ("f", "transposed", "strided", "readonly", "uint8", "int_f", "float", "from_mask2d")
+POINT_LAYOUTS = ("f", "strided_rows", "strided_cols", "readonly", "native3d", "float32", "from_grid2d")
+
+
+def is_double(x: F) -> bool:
+    try:
+        return F(float(x)) == x
+    except OverflowError:
+        return False
+
+
+def dbl(x) -> F:
+    """the double nearest to x, as an exact rational (what the implementation receives for x)"""
+    return F(float(fr(x)))
+
+
+def exactify(case):
+    """every real-valued input of an ordinary case replaced by the double the implementation receives for it, so
+    that model and oracle speak about exactly the implementation's input (the generators of the far / near streams
+    produce values with many significant bits)"""
+    D = lambda v: q(dbl(v))
+    for key in ("scales", "origin", "centre"):
+        if key in case and isinstance(case[key], list):
+            case[key] = [D(v) for v in case[key]]
+    if case["kind"] == "grid1d":
+        case["scale"], case["origin"] = D(case["scale"]), D(case["origin"])
+        case["points"] = [D(p) for p in case["points"]]
+    elif case["kind"] == "geom":
+        case["points"] = [[D(a), D(b)] for a, b in case["points"]]
+    for key in RADII_KEYS + ("axis_ratio", "inner_axis_ratio", "outer_axis_ratio"):
+        if key in case:
+            case[key] = D(case[key])
+    return case
+
+
+def scale_case(base, f: F):
+    """the ordinary case `base` with every scaled-unit input multiplied by f (pixel-unit inputs, angles and axis
+    ratios are dimensionless and stay)"""
+    import copy
+    c = copy.deepcopy(base)
+    S = lambda v: q(fr(v) * f)
+    kind = c["kind"]
+    if kind == "grid1d":
+        c["scale"], c["origin"] = S(c["scale"]), S(c["origin"])
+        c["points"] = [S(p) for p in c["points"]]
+        return c
+    c["scales"] = [S(v) for v in c["scales"]]
+    c["origin"] = [S(v) for v in c["origin"]]
+    if kind == "geom":
+        c["points"] = [[S(a), S(b)] for a, b in c["points"]]
+    elif kind == "shape":
+        c["centre"] = [S(v) for v in c["centre"]]
+        for key in RADII_KEYS:
+            if key in c:
+                c[key] = S(c[key])
+    return c
+
+
+def unscale_obs(kind, obs, f: F):
+    """an observation (implementation's or model's) of a case scaled by f, expressed in the units of the base case:
+    exact rational division of the scaled-unit entries"""
+    if not isinstance(obs, dict) or "err" in obs:
+        return obs
+
+    def dv(x):
+        try:
+            return q(fr(x) / f)
+        except (ValueError, ZeroDivisionError, TypeError):
+            return x  # "nan" / "inf": compared literally
+
+    out = dict(obs)
+    for key in DEC_PAIR_KEYS[kind]:
+        if key in out and isinstance(out[key], list):
+            out[key] = [[dv(a), dv(b)] for a, b in out[key]]
+    for key in DEC_FLAT_KEYS[kind]:
+        if key in out and isinstance(out[key], list):
+            out[key] = [dv(a) for a in out[key]]
+    return out
+
+
+def lay_mask(b, layout):
+    """an equal-valued mask argument in another memory layout / dtype (b: boolean array, 1-D or 2-D)"""
+    b = np.array(b, dtype=bool)
+    if layout == "f":
+        return np.asfortranarray(b)
+    if layout == "transposed":
+        return np.ascontiguousarray(b.T).T
+    if layout == "strided":  # a non-contiguous window of a bigger buffer with junk in between
+        if b.ndim == 1:
+            big = (np.arange(3 * b.shape[0] + 2) % 2).astype(bool)
+            view = big[1::3][:b.shape[0]]
+        else:
+            H, W = b.shape
+            big = (np.indices((2 * H + 1, 3 * W + 2)).sum(0) % 2).astype(bool)
+            view = big[1::2, 2::3]
+        view[...] = b
+        return view
+    if layout == "readonly":
+        c = b.copy()
+        c.setflags(write=False)
+        return c
+    if layout == "uint8":
+        return b.astype(np.uint8)
+    if layout == "int_f":
+        return np.asfortranarray(b.astype(np.int64))
+    if layout == "float":
+        return b.astype(float)
+    return b
+
+
+def lay_points(a, layout):
+    """an equal-valued (N, 2) coordinate array in another memory layout / dtype"""
+    if not isinstance(a, np.ndarray) or a.ndim != 2 or a.shape[0] == 0:
+        return a
+    n = a.shape[0]
+    if layout in ("f", "transposed"):
+        return np.asfortranarray(a)
+    if layout == "strided_rows":
+        big = np.full((2 * n + 1, 2), -777.25, dtype=a.dtype)
+        big[1::2] = a
+        return big[1::2]
+    if layout == "strided_cols":
+        big = np.full((n, 5), 555.5, dtype=a.dtype)
+        big[:, 1:4:2] = a
+        return big[:, 1:4:2]
+    if layout == "readonly":
+        c = a.copy()
+        c.setflags(write=False)
+        return c
+    if layout == "float32":
+        c = a.astype(np.float32)
+        return c if (c.astype(np.float64) == a).all() else a
+    return a
+
+
 class C02(PropertyCheck):
     pid = "C02"
     title = "pixel <-> scaled coordinate maps and shape masks"
@@ -337,7 +484,10 @@ class C02(PropertyCheck):
         "for shape masks, the result has both masked and unmasked pixels; distinct = distinct inputs; "
         "history cases (2-6 steps on reused objects, each step compared with the model / oracle of a fresh object in "
         "that state, every history run in a fresh fork of a pristine process) count when they have >= 2 steps; "
-        "constant-directed large cases (only when the anchored source gained an integer constant) are oracle-only"
+        "constant-directed large cases (only when the anchored source gained an integer constant) are oracle-only; "
+        "round 5/6 streams: decade cases (the whole world x 2^k, |k| <= 480, both observations divided back exactly and "
+        "judged as the base case) count like their base case; near-special / far-origin / layout / option-pair cases are "
+        "ordinary cases; always-on big cases (> 2^16 elements) are oracle-only"
     )
     exhaustive_note = {
         "quick": "complete enumerations: every 1-D mask with n <= 6 cells; every shape (H,W) in 1..7 x 1..7 for "
@@ -469,8 +619,8 @@ class C02(PropertyCheck):
                 "origin": qlist([oy, ox]), "points": [qlist(p) for p in pts],
                 "pixels": [qlist(p) for p in pix], "variant": self._variant(rng, integer=True)}
 
-    def _geom_case(self, rng, H, W, k, tag):
-        sy, sx, oy, ox = self._scales_origin(rng, k)
+    def _geom_case(self, rng, H, W, k, tag, geo=None, hug=True):
+        sy, sx, oy, ox = geo if geo is not None else self._scales_origin(rng, k)
         ymax, xmin = oy + H * sy / 2, ox - W * sx / 2
         pts = []
         # random interior points, 8 fractional bits of a pixel
@@ -479,20 +629,20 @@ class C02(PropertyCheck):
             tx = F(rng.randint(1, W * 256 - 1), 256)
             pts.append((ymax - ty * sy, xmin + tx * sx))
         # boundary-hugging: every pixel boundary line, both sides, paired with a random other coordinate
-        for b in range(H + 1):
+        for b in range(H + 1 if hug else 0):
             for sgn in (-1, 1):
                 ty = b + sgn * HUG
                 if 0 < ty < H:
                     tx = F(rng.randint(1, W * 64 - 1), 64) + F(1, 256)
                     pts.append((ymax - ty * sy, xmin + tx * sx))
-        for b in range(W + 1):
+        for b in range(W + 1 if hug else 0):
             for sgn in (-1, 1):
                 tx = b + sgn * HUG
                 if 0 < tx < W:
                     ty = F(rng.randint(1, H * 64 - 1), 64) + F(1, 256)
                     pts.append((ymax - ty * sy, xmin + tx * sx))
         # a corner-hugging point in each corner pixel
-        for ty in (HUG, H - HUG):
+        for ty in ((HUG, H - HUG) if hug else ()):
             for tx in (HUG, W - HUG):
                 pts.append((ymax - ty * sy, xmin + tx * sx))
         # fractional pixel coordinates for the pixel -> scaled direction
@@ -514,9 +664,9 @@ class C02(PropertyCheck):
                 "origin": qlist([oy, ox]), "points": [qlist((ymax - b * sy, xmin + tx * sx))],
                 "pixels": [], "single_band_point": True}
 
-    def _grid_case(self, rng, H, W, tag, all_masked=False):
-        sy, sx, oy, ox = self._scales_origin(rng, rng.randrange(3))
-        if rng.random() < 0.25:  # integer-valued geometry, passed as Python ints by some variants
+    def _grid_case(self, rng, H, W, tag, all_masked=False, geo=None):
+        sy, sx, oy, ox = geo if geo is not None else self._scales_origin(rng, rng.randrange(3))
+        if geo is None and rng.random() < 0.25:  # integer-valued geometry, passed as Python ints by some variants
             sy, sx = F(rng.choice([1, 2, 3])), F(rng.choice([1, 2, 3]))
             oy, ox = F(round(oy)), F(round(ox))
         if all_masked:
@@ -526,9 +676,11 @@ class C02(PropertyCheck):
         return {"tag": f"{tag}_{kind}", "kind": "grid", "mask": mask_json(m), "scales": qlist([sy, sx]),
                 "origin": qlist([oy, ox]), "variant": self._variant(rng)}
 
-    def _grid1d_case(self, rng, n, bits):
+    def _grid1d_case(self, rng, n, bits, geo=None):
         s = rng.choice(gen.SCALES)
         o = gen.dyadic(rng, -4, 4, 3)
+        if geo is not None:
+            s, o = geo
         xmin = o - n * s / 2
         pts = [xmin + F(rng.randint(1, n * 256 - 1), 256) * s for _ in range(4)]
         pts += [xmin + (b + sg * HUG) * s for b in range(n + 1) for sg in (-1, 1) if 0 < b + sg * HUG < n]
@@ -562,9 +714,9 @@ class C02(PropertyCheck):
             return F(d) + F(rng.randint(-32, 32), 128)
         return F(rng.randint(0, 64), 8)
 
-    def _shape_case(self, rng, H, W, ctor, tag, centre_nonzero=False):
-        sy, sx, oy, ox = self._scales_origin(rng, rng.randrange(3))
-        integer = rng.random() < 0.2  # integer-valued parameters, passed as Python ints by some variants
+    def _shape_case(self, rng, H, W, ctor, tag, centre_nonzero=False, geo=None, centre=None):
+        sy, sx, oy, ox = geo if geo is not None else self._scales_origin(rng, rng.randrange(3))
+        integer = rng.random() < 0.2 and geo is None  # integer-valued parameters, passed as Python ints by some variants
         if integer:
             sy, sx = F(rng.choice([1, 2, 3])), F(rng.choice([1, 2, 3]))
             oy, ox = F(round(oy)), F(round(ox))
@@ -582,6 +734,8 @@ class C02(PropertyCheck):
             cy, cx = cy + F(3, 8) * sy, cx - F(5, 8) * sx
             if cy == 0 or cx == 0 or cy == cx or cy == -cx:
                 cy, cx = cy + sy, cx - F(1, 4) * sx
+        if centre is not None:
+            cy, cx = centre
         case = {"tag": f"{tag}_{ctor}", "kind": "shape", "ctor": ctor, "shape": [H, W],
                 "scales": qlist([sy, sx]), "origin": qlist([oy, ox]), "centre": qlist([cy, cx]),
                 "variant": self._variant(rng)}
@@ -800,7 +954,8 @@ class C02(PropertyCheck):
     _NAMES = {"grid": GRID_OBS, "geom": GEOM_GROUPS, "grid1d": GRID1D_OBS, "shape": SHAPE_OBS}
 
     def _step(self, rng, sub, what, **kw):
-        return {"case": sub, "what": what, "opts": self._hopts(rng, self._NAMES[sub["kind"]], **kw)}
+        kind = sub["base"]["kind"] if sub["kind"] == "decade" else sub["kind"]
+        return {"case": sub, "what": what, "opts": self._hopts(rng, self._NAMES[kind], **kw)}
 
     def _perturb_geometry(self, rng, c):
         """twin of a 2-D case: scales / origin replaced by near-duplicates"""
@@ -859,6 +1014,8 @@ class C02(PropertyCheck):
         for active in keys
         for pkind in (["radius", "centre", "scales"] + (["angle", "axis_ratio"] if ctor.startswith("ellip") else [])))
     _twin_k = 0
+    _own_k = 0
+    _conf_k = 0
 
     def _shape_twin(self, rng, H, W):
         """two shape cases whose parameters agree to ~1e-6 relative but which differ in at least one pixel (outside
@@ -903,24 +1060,29 @@ class C02(PropertyCheck):
             a[active] = b[active] = q(r)
         # the other radii stay out of the way of the pixel that flips
         for c in (a, b):
-            if ctor == "annular":
-                if active == "outer":
-                    c["inner"] = q(F(0))
-                else:
-                    c["outer"] = q(F(big))
-            elif ctor == "anti_annular":
-                if active == "inner":
-                    c["outer"], c["outer2"] = q(r + F(big)), q(r + 2 * F(big))
-                elif active == "outer":
-                    c["inner"], c["outer2"] = q(F(-1)), q(F(big))
-                else:
-                    c["inner"], c["outer"] = q(F(-1)), q(F(0))
-            elif ctor == "elliptical_annular":
-                if active == "outer_major":
-                    c["inner_major"] = q(F(0))
-                else:
-                    c["outer_major"] = q(F(big) * 8)
+            self._isolate(c, ctor, active, r, big)
         return a, b, f"the same {ctor} call with {param if param != 'radius' else active} changed by ~1e-6 relative"
+
+    @staticmethod
+    def _isolate(c, ctor, active, r, big):
+        """the radii of `c` other than `active` (which is about r) moved out of the way of the pixels near r"""
+        if ctor == "annular":
+            if active == "outer":
+                c["inner"] = q(F(0))
+            else:
+                c["outer"] = q(F(big))
+        elif ctor == "anti_annular":
+            if active == "inner":
+                c["outer"], c["outer2"] = q(r + F(big)), q(r + 2 * F(big))
+            elif active == "outer":
+                c["inner"], c["outer2"] = q(F(-1)), q(F(big))
+            else:
+                c["inner"], c["outer"] = q(F(-1)), q(F(0))
+        elif ctor == "elliptical_annular":
+            if active == "outer_major":
+                c["inner_major"] = q(F(0))
+            else:
+                c["outer_major"] = q(F(big) * 8)
 
     def _history(self, fam, rng):
         H, W = self._hshape(rng)
@@ -1066,6 +1228,60 @@ class C02(PropertyCheck):
                 what = "the caller's shape / scales / origin / centre lists are edited in place and passed again"
             steps = [self._step(rng, a, "world A"), self._step(rng, b, what, reuse=reuse),
                      self._step(rng, self._copy(a), "world A again (" + what + ")", reuse=reuse)]
+        elif fam == "own":
+            # R5-B ownership: observe -> overwrite in place EVERY array the API returned or accepted -> rebuild the same
+            # world from fresh equal inputs -> observe again; three rounds, each judged as a fresh world
+            kind = ("grid", "geom", "shape", "grid1d", "grid", "geom")[self._own_k % 6]
+            a = self._world(rng, kind, H, W)
+            if kind == "geom":
+                a["variant"]["vals"] = rng.choice(["float64", "float64", "pylist"])
+                a["variant"]["route"] = ("geometry", "util", "geometry_obj")[(self._own_k // 6) % 3]
+            wrap = (lambda c: c)
+            if rng.random() < 0.3:
+                k = rng.choice([-30, -14, -7, 7, 20])
+                wrap = (lambda c: self._decade(c, k, "dec_own"))
+            style = ("nan", "plus1", "setitem")[(self._own_k // 2) % 3]
+            self._own_k += 1
+            what = f"rebuilt from fresh equal inputs after every returned / accepted array was overwritten in place ({style})"
+
+            def own(c, w):
+                o = {"scribble": "all", "scribble_style": style}
+                if rng.random() < 0.4:
+                    o["order"] = rng.sample(list(self._NAMES[kind]), len(self._NAMES[kind]))
+                return {"case": wrap(c), "what": w, "opts": o}
+            if rng.random() < 0.3 and kind != "grid1d":  # same frame, another geometry in between
+                b = self._world(rng, kind, H, W, like=a)
+                steps = [own(a, "world A"), own(b, "world B on the same frame, after everything of A was overwritten"),
+                         own(self._copy(a), "world A again, " + what)]
+            else:
+                c3 = self._copy(a)
+                if kind == "geom":
+                    c3["variant"]["route"] = rng.choice(["geometry", "util", "geometry_obj"])
+                steps = [own(a, "first read"), own(self._copy(a), what), own(c3, "third round of the same")]
+        elif fam == "conf":
+            # R5-D: the anchored code reads no configuration value, so every observation must be independent of the
+            # configuration in force: values flipped BETWEEN calls on reused and on fresh objects, pinned values as controls
+            # (configuration value x kind of case) cycle deterministically: each combination once per 16 histories
+            kind = ("grid", "geom", "shape", "grid1d")[self._conf_k % 4]
+            X = ({"flip": True}, {"nbo": True}, {"rpc": True}, {"flip": True, "nbo": True, "rpc": True})[(self._conf_k // 4) % 4]
+            self._conf_k += 1
+            a = self._world(rng, kind, H, W)
+            c0, c1 = ({}, X) if rng.random() < 0.7 else (X, {})
+            reuse = {"grid": ["mask"], "geom": ["geometry", "qgrid"], "grid1d": ["mask"], "shape": []}[kind]
+            names = self._NAMES[kind]
+
+            def cstep(c, w, conf, **kw):
+                o = {"conf": dict(conf), **kw}
+                if rng.random() < 0.4:
+                    o["order"] = rng.sample(list(names), len(names))
+                return {"case": c, "what": w, "opts": o}
+            d0 = "the pinned configuration" if not c0 else f"configuration {c0}"
+            d1 = "the pinned configuration" if not c1 else f"configuration {c1}"
+            steps = [cstep(a, f"first read under {d0}", c0),
+                     cstep(self._copy(a), f"configuration changed to {d1} between calls, same objects read again", c1,
+                           reuse=reuse),
+                     cstep(self._copy(a), f"fresh objects built and read under {d1}", c1),
+                     cstep(self._copy(a), f"configuration changed back to {d0}, same objects read again", c0, reuse=reuse)]
         else:  # "order": sibling observations in a permuted order, decoy reads first, returned arrays scribbled on
             kind = rng.choice(["grid", "geom", "shape", "grid1d"])
             a = self._world(rng, kind, H, W)
@@ -1107,11 +1323,12 @@ class C02(PropertyCheck):
 
     HIST_FAMILIES = (("twin_grid", 80), ("twin_geom", 40), ("twin_shape", 110), ("twin_grid1d", 28),
                      ("edit_mask", 56), ("edit_mask1d", 20), ("edit_points", 30), ("fault", 56), ("shared", 56),
-                     ("order", 44))
+                     ("order", 44), ("own", 40), ("conf", 16))
 
     def _histories(self, tier, rng):
         mult = 1 if tier == "quick" else 3
         self._twin_k = 0
+        self._own_k, self._conf_k = rng.randrange(18), rng.randrange(16)
         todo = [[fam, n * mult] for fam, n in self.HIST_FAMILIES]
         while todo:  # round-robin over the families
             for t in list(todo):
@@ -1119,6 +1336,424 @@ class C02(PropertyCheck):
                 t[1] -= 1
                 if t[1] <= 0:
                     todo.remove(t)
+
+    # ================================================================== round 5/6 streams (DESIGN §14, R5-A ... R5-F)
+    DEC_KS = (-45, -40, -33, -27, -20, -14, -10, -7, -3, 3, 7, 10, 14, 20, 27, 33, 40, 45)
+    DEC_KS_EXTREME = (-480, 400, -300, 150, -400, 480, -150, 300)
+    NEAR_KS = (0, -7, -14, 0, -27, 10, -40, 30)
+
+    @staticmethod
+    def _case_reals(c):
+        """every scaled-unit input of an ordinary case, as Fractions"""
+        if c["kind"] == "grid1d":
+            return [fr(c["scale"]), fr(c["origin"])] + [fr(p) for p in c["points"]]
+        out = [fr(v) for v in c["scales"] + c["origin"] + c.get("centre", [])]
+        out += [fr(x) for p_ in c.get("points", []) for x in p_]
+        out += [fr(c[k]) for k in RADII_KEYS if k in c]
+        return out
+
+    def _decade(self, base, k, tag):
+        """`base` in units 2^k times larger; k falls back to 0 if a scaled input would not be an exact double"""
+        k = max(-DEC_K_MAX, min(DEC_K_MAX, int(k)))
+        f = self._dec_factor({"k": k})
+        if k and not all(is_double(v * f) for v in self._case_reals(base)):
+            k = 0
+        if abs(k) > 45:
+            tag = tag.replace("dec_", "decx_", 1)
+        return {"tag": tag, "kind": "decade", "k": k, "base": base}
+
+    def _rshape(self, rng, lo=1, hi=6):
+        H, W = rng.randint(lo, hi), rng.randint(lo, hi)
+        if H == W and rng.random() < 0.7:
+            W = W % hi + 1
+        return H, W
+
+    def _trim_points(self, rng, c, n=20):
+        if len(c["points"]) > n:
+            c["points"] = c["points"][:4] + rng.sample(c["points"][4:], n - 4)
+        return c
+
+    def _decade_cases(self, tier, rng):
+        """R5-A / R5-E: ordinary cases with the whole world in other units (x 2^k, exact), out to 2^+-480 (~1e+-144:
+        squares of every quantity stay inside the double range)"""
+        reps = 1 if tier == "quick" else 5
+        i = rng.randrange(1000)
+
+        def nk():
+            nonlocal i
+            i += 1
+            return self.DEC_KS_EXTREME[(i // 2) % len(self.DEC_KS_EXTREME)] if i % 2 == 0 \
+                else self.DEC_KS[(i // 2) % len(self.DEC_KS)]
+        for _ in range(reps):
+            for _ in range(16):
+                H, W = self._rshape(rng)
+                c = self._trim_points(rng, self._geom_case(rng, H, W, rng.randrange(3), "dec"))
+                yield self._decade(c, nk(), "dec_geom")
+            for _ in range(10):
+                H, W = self._rshape(rng)
+                yield self._decade(self._grid_case(rng, H, W, "dec"), nk(), "dec_grid")
+            for ctor in CTORS:
+                for _ in range(7):
+                    H, W = self._rshape(rng, 2, 7)
+                    c = self._shape_case(rng, H, W, ctor, "dec", centre_nonzero=rng.random() < 0.7)
+                    yield self._decade(c, nk(), "dec_shape")
+            for _ in range(7):
+                n = rng.randint(1, 9)
+                c = self._grid1d_case(rng, n, "".join(rng.choice("01") for _ in range(n)))
+                yield self._decade(c, nk(), "dec_grid1d")
+
+    # -- nearly-equal / nearly-zero / nearly-special ingredients (relative difference 2^-20 ... 2^-24: inside the
+    #    defaults of np.allclose / np.isclose, 10-1000 x outside the property's 1e-9), each at several decades
+    def _near_geo(self, rng, mode):
+        sy, sx, oy, ox = self._scales_origin(rng, 0)
+        e = rng.choice([20, 21, 22, 23])
+        eps = F(rng.choice([-1, 1]), 1 << e)
+        if oy == 0:
+            oy = F(5, 8)
+        if mode == "s_eq":
+            sx = sy * (1 + eps)
+        elif mode == "o_eq":
+            ox = oy * (1 + eps)
+        elif mode == "o_neg":
+            ox = -oy * (1 + eps)
+        elif mode == "o0":
+            oy, ox = sy * F(rng.choice([-3, -1, 1, 2, 3]), 1 << e), sx * F(rng.choice([-3, 1, 2, 5]), 1 << (e + 1))
+        elif mode == "o0y":
+            oy = sy * F(rng.choice([-3, -1, 1, 3]), 1 << e)
+        return sy, sx, oy, ox
+
+    NEAR_SHAPE_COMBOS = tuple(
+        [(c, a, m) for m in ("q1", "ang") for c, a in (("elliptical", "major"), ("elliptical_annular", "inner_major"),
+                                                         ("elliptical_annular", "outer_major"))]
+        + [(c, a, m) for m in ("s_eq", "c0", "c_eq_o")
+           for c, a in (("circular", "radius"), ("annular", "inner"), ("annular", "outer"), ("anti_annular", "outer"),
+                        ("anti_annular", "outer2"), ("elliptical", "major"), ("elliptical_annular", "outer_major"))]
+        + [("annular", "ring", "ring"), ("anti_annular", "ring", "ring"), ("elliptical_annular", "ring", "ring")]
+        + [("circular", "radius", "r0"), ("annular", "outer", "r0"), ("elliptical", "major", "r0"),
+           ("anti_annular", "inner", "r0")])
+
+    def _near_shape(self, rng, H, W, combo):
+        """a single constructor call with one ingredient within 2^-20...2^-23 (relative) of a special value — axis ratio
+        ~ 1, angle ~ a multiple of 90 degrees, s_x ~ s_y, centre ~ 0, centre ~ mask origin (far from zero), inner ~ outer
+        radius, radius ~ 0 — and the active radius placed between the radial quantities that the special and the actual
+        value give the pixel that moves most: a shortcut that treats the ingredient as special flips a compared pixel"""
+        ctor, active, mode = combo
+        prefix = {"inner_major": "inner_", "outer_major": "outer_"}.get(active, "")
+        e = rng.choice([20, 21, 22])
+        eps = F(rng.choice([-1, 1]), 1 << e)
+        sy, sx, oy, ox = self._scales_origin(rng, rng.randrange(3))
+        if mode == "c_eq_o":
+            sy = rng.choice([F(1), F(1, 2), F(2)])
+            sx = sy * rng.choice([F(1, 2), F(2), F(1)])
+            oy = rng.choice([-1, 1]) * (F(1 << 17) + rng.randint(0, 4000) + F(rng.randint(1, 7), 8)) * sy
+            ox = rng.choice([-1, 1]) * (F(1 << 16) + rng.randint(0, 4000) + F(rng.randint(1, 7), 8)) * sx
+        if mode == "s_eq":
+            sx = sy
+        cen = None
+        if mode == "c0":
+            cen = (F(0), F(0))
+        elif mode == "c_eq_o":
+            cen = (oy, ox)
+        elif mode == "r0":
+            cen = ((F(H - 1, 2) - rng.randrange(H)) * sy, (rng.randrange(W) - F(W - 1, 2)) * sx)
+        a = self._shape_case(rng, H, W, ctor, "near", centre_nonzero=True, geo=(sy, sx, oy, ox), centre=cen)
+        a["tag"] = f"near_{mode}"
+        akey = {"": "axis_ratio", "inner_": "inner_axis_ratio", "outer_": "outer_axis_ratio"}[prefix]
+        pkey = ("angle" if ctor == "elliptical" else prefix + "phi")
+        ckey = {"angle": "cs", "inner_phi": "inner_cs", "outer_phi": "outer_cs"}.get(pkey)
+        if mode == "ring":  # inner ~ outer: exactly the pixels at one distance are unmasked
+            pre = "outer_" if ctor == "elliptical_annular" else ""
+            if ctor == "elliptical_annular":  # one ellipse for both radii
+                for k_ in ("axis_ratio", "phi", "cs"):
+                    a["inner_" + k_] = a["outer_" + k_]
+            d = self._radial(a, pre)
+            dval = float(d[rng.randrange(H), rng.randrange(W)]) or float(np.max(d)) or 1.0
+            lo, hi = F(dval) * (1 - abs(eps)), F(dval) * (1 + abs(eps))
+            if ctor == "annular":
+                a["inner"], a["outer"] = q(lo), q(hi)
+            elif ctor == "anti_annular":
+                a["inner"], a["outer"], a["outer2"] = q(F(-1)), q(lo), q(hi)
+            else:
+                a["inner_major"], a["outer_major"] = q(lo), q(hi)
+            return exactify(a)
+        if mode == "r0":  # radius ~ 0 about a centre that is exactly a pixel centre: that pixel alone is unmasked
+            r = min(sy, sx) * F(rng.randint(1, 3), 1 << rng.randint(21, 24))
+            a[active] = q(r)
+            self._isolate(a, ctor, active, r, float(np.max(self._radial(a, prefix))) * 2 + 10)
+            return exactify(a)
+        b = self._copy(a)  # `a`: the special value; `b`: the nearby value (the case that is run)
+        if mode == "q1":
+            a[akey], b[akey] = q(F(1)), q(1 - abs(eps))
+        elif mode == "ang":
+            if F(a[akey]) == 1:
+                a[akey] = b[akey] = q(F(3, 4))
+            ang0 = F(90 * rng.choice([1, 2, 3, 4, -1, -2]))
+            e2 = rng.choice([17, 18, 19])
+            ang1 = ang0 * (1 + F(rng.choice([-1, 1]), 1 << e2))
+            a[pkey], b[pkey] = q(ang0), q(ang1)
+            a[ckey], b[ckey] = cs_of(ang0), cs_of(ang1)
+        elif mode == "s_eq":
+            b["scales"] = qlist([sy, sy * (1 + eps)])
+        elif mode == "c0":
+            b["centre"] = qlist([sy * F(rng.choice([-3, -1, 1, 2]), 1 << e), sx * F(rng.choice([-2, 1, 3]), 1 << e)])
+        elif mode == "c_eq_o":
+            b["centre"] = qlist([oy + sy * F(rng.choice([-5, -3, 3, 5]), 8), ox + sx * F(rng.choice([-5, -1, 1, 3]), 8)])
+        da, db = self._radial(a, prefix), self._radial(b, prefix)
+        k = int(np.argmax(np.abs(da - db) / np.maximum(1e-300, np.maximum(da, db))))
+        r = F((float(da.ravel()[k]) + float(db.ravel()[k])) / 2)
+        b[active] = q(r)
+        self._isolate(b, ctor, active, r, float(np.max(db)) * 2 + 10)
+        return exactify(b)
+
+    def _near_cases(self, tier, rng):
+        reps = 1 if tier == "quick" else 4
+        j = rng.randrange(len(self.NEAR_KS))
+        for _ in range(reps):
+            for combo in self.NEAR_SHAPE_COMBOS:
+                for _ in range(2 if combo[2] in ("q1", "ang", "ring", "r0") else 1):
+                    H, W = self._rshape(rng, 2, 7)
+                    c = self._near_shape(rng, H, W, combo)
+                    j += 1
+                    k = 0 if combo[2] == "c_eq_o" else self.NEAR_KS[j % len(self.NEAR_KS)]
+                    yield self._decade(c, k, c["tag"])
+            for mode in ("s_eq", "o_eq", "o_neg", "o0", "o0y"):
+                for kind in ("geom", "geom", "grid", "grid"):
+                    H, W = self._rshape(rng)
+                    geo = self._near_geo(rng, mode)
+                    if kind == "geom":
+                        c = self._trim_points(rng, self._geom_case(rng, H, W, 0, "near", geo=geo))
+                    else:
+                        c = self._grid_case(rng, H, W, "near", geo=geo)
+                    c["tag"] = f"near_{mode}"
+                    j += 1
+                    yield self._decade(exactify(c), self.NEAR_KS[j % len(self.NEAR_KS)], c["tag"])
+            for _ in range(6):  # 1-D: origin ~ 0
+                n = rng.randint(2, 9)
+                s = rng.choice(gen.SCALES)
+                c = self._grid1d_case(rng, n, "".join(rng.choice("01") for _ in range(n)),
+                                      geo=(s, s * F(rng.choice([-3, -1, 1, 2]), 1 << rng.randint(20, 23))))
+                c["tag"] = "near_o0"
+                j += 1
+                yield self._decade(exactify(c), self.NEAR_KS[j % len(self.NEAR_KS)], c["tag"])
+
+    # -- origins / centres far from zero; one ingredient (the pixel scale) in other units while the origin stays
+    def _far_geo(self, rng, pow2):
+        if pow2:  # powers of two: every float operation of the code is exact, |origin| / scale up to 2^24
+            sy, sx = F(2) ** rng.randint(-3, 3), F(2) ** rng.randint(-3, 3)
+            M = 1 << rng.randint(12, 24)
+        else:  # |origin| / scale <= 2^17: rounding of y / s stays below 1e-10 pixel
+            sy, sx = gen.scales_pair(rng)
+            M = 1 << rng.randint(10, 17)
+        oy = rng.choice([-1, 1]) * (F(M - rng.randint(0, M // 4)) + F(rng.randint(0, 7), 8)) * sy
+        ox = rng.choice([-1, 1]) * (F(M // rng.choice([1, 2, 8]) - rng.randint(0, 9)) + F(rng.randint(1, 7), 8)) * sx
+        return sy, sx, oy, ox
+
+    def _far_cases(self, tier, rng):
+        reps = 1 if tier == "quick" else 4
+        for _ in range(reps):
+            for i in range(12):
+                H, W = self._rshape(rng)
+                c = self._trim_points(rng, self._geom_case(rng, H, W, 0, "far", geo=self._far_geo(rng, i % 2 == 0)), 24)
+                c["tag"] = "far_geom"
+                yield exactify(c)
+            for i in range(10):
+                H, W = self._rshape(rng)
+                c = self._grid_case(rng, H, W, "far", geo=self._far_geo(rng, i % 2 == 0))
+                c["tag"] = "far_grid"
+                yield exactify(c)
+            for i in range(6):
+                n = rng.randint(1, 9)
+                sy, _, oy, _ = self._far_geo(rng, i % 2 == 0)
+                c = self._grid1d_case(rng, n, "".join(rng.choice("01") for _ in range(n)), geo=(sy, oy))
+                c = self._grid1d_case_at(rng, c)
+                c["tag"] = "far_grid1d"
+                yield exactify(c)
+            for ctor in CTORS:  # centre far from zero (the shape is measured from the mask origin, which is far too)
+                for i in range(2):
+                    H, W = self._rshape(rng, 2, 7)
+                    sy, sx, oy, ox = self._far_geo(rng, i == 0)
+                    M = 1 << rng.randint(8, 17)
+                    cen = (rng.choice([-1, 1]) * (F(M) + F(rng.randint(0, 63), 8)) * sy,
+                           rng.choice([-1, 1]) * (F(M // rng.choice([1, 4])) + F(rng.randint(1, 63), 8)) * sx)
+                    c = self._shape_case(rng, H, W, ctor, "far", geo=(sy, sx, oy, ox), centre=cen)
+                    c["tag"] = "far_shape"
+                    yield exactify(c)
+            for i in range(8):  # pixel scale 2^j with the origin left where it was: origin tiny / huge in pixel units
+                H, W = self._rshape(rng)
+                sy, sx, oy, ox = self._scales_origin(rng, 0)
+                jy, jx = (rng.randint(5, 20), rng.randint(5, 20)) if i % 2 else (-rng.randint(5, 12), -rng.randint(5, 12))
+                geo = (sy * F(2) ** jy, sx * F(2) ** jx, oy, ox)
+                if i % 4 < 2:
+                    c = self._trim_points(rng, self._geom_case(rng, H, W, 0, "far", geo=geo), 24)
+                else:
+                    c = self._shape_case(rng, max(2, H), max(2, W), rng.choice(CTORS), "far", centre_nonzero=True, geo=geo)
+                c["tag"] = "far_scale_only"
+                yield exactify(c)
+
+    # -- R5-C: equal-valued inputs in other memory layouts / dtypes / containers, structures built from structures
+    def _layout_cases(self, tier, rng):
+        reps = 1 if tier == "quick" else 4
+        for _ in range(reps):
+            for lay in MASK_LAYOUTS:
+                for i in range(3):
+                    H, W = self._rshape(rng, 1 if i == 2 else 2, 6)
+                    c = self._grid_case(rng, H, W, "lay")
+                    for _try in range(6):  # a mask whose memory order matters (row-major != column-major traversal)
+                        b_ = np.array([ch == "1" for ch in c["mask"]["bits"]]).reshape(H, W)
+                        if i == 2 or (b_.ravel(order="F") != b_.ravel()).any():
+                            break
+                        c["mask"] = mask_json(gen.random_mask(rng, H, W, kind="bernoulli")[0])
+                    c["variant"].update({"mask_layout": lay, "mask_invert": rng.random() < 0.25})
+                    if lay == "from_mask2d" and i == 0:  # built from a mask of another geometry, origin exactly (0, 0)
+                        c["origin"] = ["0", "0"]
+                        c["variant"].update({"origin_mode": rng.choice(["explicit", "int", "omit"])})
+                    c["tag"] = f"lay_mask_{lay}"
+                    yield c
+            for os_ in ("u1", "u2", "iterate"):
+                H, W = self._rshape(rng)
+                c = self._grid_case(rng, H, W, "lay")
+                c["variant"]["over_sampling"] = os_
+                c["tag"] = "lay_over_sampling"
+                yield c
+            for lay in POINT_LAYOUTS:
+                for i in range(2):
+                    H, W = self._rshape(rng)
+                    f32 = lay == "float32"
+                    geo = None
+                    if f32:  # values and every intermediate result exact in 24 bits: the same real numbers come out
+                        geo = (F(2) ** rng.randint(-2, 1), F(2) ** rng.randint(-2, 1), gen.dyadic(rng, -4, 4, 3),
+                               gen.dyadic(rng, -4, 4, 3))
+                    c = self._trim_points(rng, self._geom_case(rng, H, W, 0, "lay", geo=geo, hug=not f32))
+                    c["variant"].update({"points_layout": lay, "vals": "float64",
+                                         "route": ("geometry", "util", "geometry_obj")[(i + rng.randrange(3)) % 3]})
+                    if lay in ("native3d", "from_grid2d"):
+                        c["variant"]["route"] = rng.choice(["geometry", "geometry_obj"])
+                    if i == 1 and rng.random() < 0.5:  # one-element coordinate lists
+                        c["points"], c["pixels"] = c["points"][:1], c["pixels"][:1]
+                    c["tag"] = f"lay_points_{lay}"
+                    yield c
+            for sk_, shk in (("np64", "list"), ("np64", "tuple"), ("py", "npint"), ("np64", "npint"), ("py", "list")):
+                H, W = self._rshape(rng)
+                c = self._trim_points(rng, self._geom_case(rng, H, W, rng.randrange(3), "lay"))
+                c["variant"].update({"scalar_kind": sk_, "shape_kind": shk, "scalar_scales": False,
+                                     "mask_layout": rng.choice([None, "f", "strided", "from_mask2d"]),
+                                     "mask_ctor": rng.choice(["all_false", "manual"])})
+                c["tag"] = "lay_scalars"
+                yield c
+                c = self._grid_case(rng, H, W, "lay")
+                c["variant"].update({"scalar_kind": sk_, "shape_kind": shk, "scalar_scales": False})
+                c["tag"] = "lay_scalars"
+                yield c
+            for lay in ("strided", "readonly", "uint8", "float", None, None):
+                n = rng.randint(1, 9)
+                c = self._grid1d_case(rng, n, "".join(rng.choice("01") for _ in range(n)))
+                c["variant"].update({"mask_layout": lay, "mask_invert": lay is None or rng.random() < 0.3,
+                                     "mask_arg": "ndarray"})
+                c["tag"] = "lay_mask1d"
+                yield c
+            for ctor in CTORS:
+                for sk_, shk in (("np64", "tuple"), ("np0d", "npint"), ("np0d", "list")):
+                    H, W = self._rshape(rng, 2, 7)
+                    c = self._shape_case(rng, H, W, ctor, "lay", centre_nonzero=rng.random() < 0.7)
+                    c["variant"].update({"scalar_kind": sk_, "shape_kind": shk, "scalar_scales": False})
+                    c["tag"] = "lay_scalars"
+                    yield c
+
+    # -- R5-F: the options of the constructors (introspected), every non-default value of one crossed with every
+    #    non-default value of another, "set but falsy" values included
+    OPT_VALUES = {"origin": ("explicit0", "int0", "nonzero"), "centre": ("explicit0", "int0", "nonzero"),
+                  "invert": (True, False), "over_sampling": ("u1", "u2"), "pixel_scales": ("scalar",)}
+    CTOR_METHOD = {"circular": "circular", "annular": "circular_annular", "anti_annular": "circular_anti_annular",
+                   "elliptical": "elliptical", "elliptical_annular": "elliptical_annular"}
+
+    def _option_names(self, *fns):
+        import inspect
+        names = []
+        for fn in fns:
+            try:
+                ps = inspect.signature(fn).parameters
+            except (TypeError, ValueError):
+                continue
+            for n_ in ps:
+                if n_ in self.OPT_VALUES and n_ not in names:
+                    names.append(n_)
+        return sorted(names)
+
+    def _option_cases(self, tier, rng):
+        import itertools
+        aa = load_autoarray()
+        reps = 1 if tier == "quick" else 3
+        MODE = {"explicit0": "explicit", "int0": "int", "nonzero": "explicit"}
+        targets = [("shape", ctor, self._option_names(getattr(aa.Mask2D, self.CTOR_METHOD[ctor]))) for ctor in CTORS]
+        targets.append(("grid", None, self._option_names(aa.Mask2D.__init__, aa.Grid2D.uniform, aa.Grid2D.from_mask)))
+        for _ in range(reps):
+            for kind, ctor, names in targets:
+                for n1, n2 in itertools.combinations(names, 2):
+                    if kind == "grid" and "centre" in (n1, n2):
+                        continue
+                    for v1 in self.OPT_VALUES[n1]:
+                        for v2 in self.OPT_VALUES[n2]:
+                            o = {n1: v1, n2: v2}
+                            H, W = self._rshape(rng, 2, 6)
+                            sy, sx, oy, ox = self._scales_origin(rng, 0)
+                            if o.get("origin") != "nonzero":
+                                oy, ox = F(0), F(0)
+                            elif o.get("origin") == "nonzero" and (oy == 0 or ox == 0):
+                                oy, ox = oy + F(5, 8), ox - F(7, 8)
+                            if o.get("pixel_scales") == "scalar":
+                                sx = sy
+                            if kind == "shape":
+                                cen = None if o.get("centre") == "nonzero" else (F(0), F(0))
+                                c = self._shape_case(rng, H, W, ctor, "opt", centre_nonzero=True, geo=(sy, sx, oy, ox),
+                                                     centre=cen)
+                            else:
+                                c = self._grid_case(rng, H, W, "opt", geo=(sy, sx, oy, ox))
+                            v = c["variant"]
+                            v.update({"params": "float", "omit_defaults": False, "explicit_flags": False,
+                                      "scalar_scales": o.get("pixel_scales") == "scalar",
+                                      "origin_mode": MODE.get(o.get("origin"), "omit"),
+                                      "centre_mode": MODE.get(o.get("centre"), "omit")})
+                            if "invert" in o:
+                                if o["invert"]:
+                                    v["invert" if kind == "shape" else "mask_invert"] = True
+                                else:
+                                    v["explicit_flags"] = True
+                            if "over_sampling" in o:
+                                v["over_sampling"] = o["over_sampling"]
+                            c["tag"] = "opt_" + n1 + "_x_" + n2
+                            yield c
+
+    # -- R5-E: always-on sizes beyond 2^15 / 2^16 elements (oracle-only, judged by the vectorised oracle)
+    def _big_cases(self, tier, rng):
+        def relabel(cs, keep=None):
+            for c in cs:
+                if keep is None or c["tag"] in keep:
+                    c["tag"] = "big_" + c["tag"][len("large_"):]
+                    yield c
+        # a frame well beyond 2^16 pixels, so that a good part of the query points has a flattened index > 65535
+        n_frame = rng.randint(72000, 88000)
+        frame = [c for c in self._large_cases_for_size(n_frame, rng, True, per_axis=False)
+                 if c["tag"] == "large_geom_frame"]
+        if tier == "quick":
+            n = (1 << 16) + rng.randint(1, 300)
+            cs = list(self._large_cases_for_size(n, rng, True, per_axis=False))
+            always = [c for c in cs if c["tag"] == "large_geom_points"]
+            others = [c for c in cs if c["tag"] not in ("large_geom_frame", "large_geom_points")]
+            yield from relabel(frame + always + rng.sample(others, 2))
+        else:
+            yield from relabel(frame)
+            for n in ((1 << 15) + rng.randint(1, 300), (1 << 16) + rng.randint(1, 300)):
+                yield from relabel(self._large_cases_for_size(n, rng, True, per_axis=False))
+            yield from relabel(self._large_cases_for_size((1 << 17) + rng.randint(1, 300), rng, True, per_axis=False),
+                               keep=("large_geom_frame", "large_geom_points", "large_grid_unmasked"))
+
+    def _round56(self, tier, rng):
+        yield from self._big_cases(tier, rng)
+        yield from self._decade_cases(tier, rng)
+        yield from self._near_cases(tier, rng)
+        yield from self._far_cases(tier, rng)
+        yield from self._layout_cases(tier, rng)
+        yield from self._option_cases(tier, rng)
 
     def generate(self, tier, rng):
         side = 7 if tier == "quick" else 12
@@ -1130,11 +1765,18 @@ class C02(PropertyCheck):
         hist = self._histories(tier, random.Random(int(hashlib.sha1(repr(rng.getstate()).encode()).hexdigest()[:16], 16)))
         n_hist = sum(n for _, n in self.HIST_FAMILIES) * (1 if tier == "quick" else 3)
         hist_per_shape = -(-n_hist // len(shapes))
+        # round 5/6 streams: own PRNG as well, spread over the shapes (the rest follows at the end)
+        r56 = self._round56(tier, random.Random(int(hashlib.sha1((repr(rng.getstate()) + "r56").encode()).hexdigest()[:16], 16)))
+        r56_per_shape = 12 if tier == "quick" else 16
         for (H, W) in shapes:
             for _ in range(hist_per_shape):
                 h = next(hist, None)
                 if h is not None:
                     yield h
+            for _ in range(r56_per_shape):
+                c = next(r56, None)
+                if c is not None:
+                    yield c
             for k in range(reps_geom):
                 yield self._geom_case(rng, H, W, k, "geom")
             yield self._geom_int_case(rng, H, W, "geom_int")
@@ -1157,6 +1799,7 @@ class C02(PropertyCheck):
             yield self._grid_case(rng, H, W, "grid_large")
             yield self._shape_case(rng, H, W, rng.choice(CTORS), "shape_large")
         yield from hist
+        yield from r56
 
     # ------------------------------------------------------------------ implementation
     def run_impl(self, case):
@@ -1168,6 +1811,8 @@ class C02(PropertyCheck):
 
     def _impl_one(self, aa, case, ctx, opts):
         kind = case["kind"]
+        if kind == "decade":  # the same world in other units: every scaled-unit input times 2^k
+            return self._impl_one(aa, self._dec_scaled(case), ctx, opts)
         if kind == "geom":
             if case.get("large"):
                 return self._impl_geom_large(aa, case)
@@ -1180,22 +1825,64 @@ class C02(PropertyCheck):
             return self._impl_grid1d(aa, case, ctx, opts)
         return self._impl_shape(aa, case, ctx, opts)
 
+    @staticmethod
+    def _dec_factor(case) -> F:
+        k = int(case["k"])
+        return F(1 << k) if k >= 0 else F(1, 1 << -k)
+
+    def _dec_scaled(self, case):
+        """the ordinary case a decade case stands for: its base with every scaled-unit input times 2^k.  Values too
+        large for an integer dtype are always passed as floats."""
+        c = scale_case(case["base"], self._dec_factor(case))
+        if case["k"]:
+            v = dict(c.get("variant") or {})
+            v["params"] = "float"
+            if v.get("vals") in ("int64", "pyint"):
+                v["vals"] = "float64" if v["vals"] == "int64" else "pylist"
+            for key in ("origin_mode", "centre_mode"):
+                if v.get(key) == "int":
+                    v[key] = "explicit"
+            c["variant"] = v
+        return c
+
     # -- histories: the steps of one case run one after the other on REAL reused objects (`ctx`) ---------------
     def _impl_history(self, aa, case):
         ctx = {}
         out = []
-        for st in case["steps"]:
-            opts = st.get("opts") or {}
-            try:
-                for name in opts.get("faults", ()):
-                    self._fault(aa, name, st["case"], ctx)
-                obs = self._impl_one(aa, st["case"], ctx, opts)
-            except Skip:
-                raise
-            except Exception as e:  # an unexpected exception of one step is that step's observation
-                obs = {"err": type(e).__name__, "msg": str(e)[:300]}
-            out.append(obs)
+        conf0 = self._conf_get()
+        try:
+            for st in case["steps"]:
+                opts = st.get("opts") or {}
+                self._owned = []
+                if "conf" in opts:  # the configuration in force for this step: pinned values overlaid with the step's
+                    self._conf_set({**conf0, **opts["conf"]})
+                try:
+                    for name in opts.get("faults", ()):
+                        self._fault(aa, name, st["case"], ctx)
+                    obs = self._impl_one(aa, st["case"], ctx, opts)
+                except Skip:
+                    raise
+                except Exception as e:  # an unexpected exception of one step is that step's observation
+                    obs = {"err": type(e).__name__, "msg": str(e)[:300]}
+                if opts.get("scribble") == "all":
+                    self._scribble_all(opts.get("scribble_style", "nan"))
+                out.append(obs)
+        finally:
+            self._conf_set(conf0)  # also when a step raises
+            self._owned = []
         return {"steps": out}
+
+    @staticmethod
+    def _conf_get():
+        from autoconf import conf
+        return {k: conf.instance[a][b][c] for k, (a, b, c) in CONF_KEYS.items()}
+
+    @staticmethod
+    def _conf_set(state):
+        from autoconf import conf
+        for k, val in state.items():
+            a, b, c = CONF_KEYS[k]
+            conf.instance[a][b][c] = val
 
     @staticmethod
     def _seq(ctx, opts, name, xs, kind):
@@ -1235,9 +1922,50 @@ class C02(PropertyCheck):
     def _read(self, opts, thunk, conv):
         raw = thunk()
         out = conv(raw)
-        if (opts or {}).get("scribble"):
+        sc = (opts or {}).get("scribble")
+        if sc == "all":
+            self._owned.append(raw)
+        elif sc:
             self._scribble(raw)
         return out
+
+    # -- ownership histories (round 5/6, R5-B): every array the API returned or accepted in a step is collected and,
+    #    when the step's observations have been taken, overwritten in place; the next step rebuilds the same world
+    #    from fresh equal inputs and must see none of it
+    _owned = []
+
+    def _keep(self, opts, *objs):
+        if (opts or {}).get("scribble") == "all":
+            self._owned.extend(objs)
+
+    def _kept(self, opts, obj):
+        self._keep(opts, obj)
+        return obj
+
+    def _scribble_all(self, style):
+        for o in self._owned:
+            try:
+                buf = o if isinstance(o, np.ndarray) else getattr(o, "array", None)
+                if not isinstance(buf, np.ndarray) or buf.size == 0:
+                    continue
+                if style == "setitem" and not isinstance(o, np.ndarray):
+                    # through the library's own __setitem__
+                    o[...] = (~buf if buf.dtype == bool else buf + 1 if np.issubdtype(buf.dtype, np.integer)
+                              else np.full(buf.shape, -31337.125))
+                    continue
+                if not buf.flags.writeable:
+                    continue
+                if buf.dtype == bool:
+                    np.logical_not(buf, out=buf)
+                elif np.issubdtype(buf.dtype, np.integer):
+                    buf += 1
+                elif style == "plus1":
+                    buf += 1.0
+                else:
+                    buf[...] = np.nan
+            except Exception:
+                pass
+        self._owned = []
 
     @staticmethod
     def _read_properties(obj, depth=1, skip=("hdu", "fits", "output", "header", "json", "dict")):
@@ -1345,12 +2073,64 @@ class C02(PropertyCheck):
         """(variant, pixel_scales, tuple_scales, origin_kwargs) as the case's variant prescribes"""
         v = case.get("variant", {})
         pm, sq = v.get("params", "float"), v.get("seq", "tuple")
+        ske = "np64" if v.get("scalar_kind") in ("np64", "np0d") else "py"  # elements of tuples: never 0-d arrays
         sy, sx = (F(x) for x in case["scales"])
         sc_t = tuple(num(x, pm) for x in case["scales"])
-        sc = float(sy) if (v.get("scalar_scales") and sy == sx) else self._seq(ctx, opts, "scales", sc_t, sq)
-        org = self._seq(ctx, opts, "origin", [num(x, pm) for x in case["origin"]], sq)
-        okw = {} if (v.get("omit_defaults") and all(F(x) == 0 for x in case["origin"])) else {"origin": org}
+        sc = float(sy) if (v.get("scalar_scales") and sy == sx) else \
+            self._seq(ctx, opts, "scales", [self._sk(x, ske) for x in sc_t], sq)
+        zero = all(F(x) == 0 for x in case["origin"])
+        om = v.get("origin_mode", "auto")  # round 5/6 (options crossed pairwise): how a default-valued option is given
+        opm = "int" if om == "int" else "float" if om == "explicit" else pm
+        org = self._seq(ctx, opts, "origin", [self._sk(num(x, opm), ske) for x in case["origin"]], sq)
+        omit = zero and (om == "omit" or (om == "auto" and v.get("omit_defaults")))
+        okw = {} if omit else {"origin": org}
         return v, sc, sc_t, okw
+
+    @staticmethod
+    def _sk(x, kind):
+        """scalar argument as a Python number | numpy scalar | 0-d array (equal value)"""
+        if kind == "np64":
+            return np.float64(x) if isinstance(x, float) else np.int64(x)
+        if kind == "np0d":
+            return np.array(x)
+        return x
+
+    @staticmethod
+    def _shape_arg(H, W, kind):
+        if kind == "list":
+            return [H, W]
+        if kind == "npint":
+            return (np.int64(H), np.int64(W))
+        return (H, W)
+
+    @staticmethod
+    def _over_sampling(aa, v):
+        o = v.get("over_sampling")
+        if o == "u1":
+            return {"over_sampling": aa.OverSamplingUniform(sub_size=1)}
+        if o == "u2":
+            return {"over_sampling": aa.OverSamplingUniform(sub_size=2)}
+        if o == "iterate":
+            return {"over_sampling": aa.OverSamplingIterate()}
+        return {}
+
+    def _mask2d(self, aa, bits2d, v, sc, okw):
+        """Mask2D of the given bits through the variant's container / layout / dtype / invert option"""
+        lay = v.get("mask_layout")
+        # `invert=True` is only combined with boolean-typed input (the library applies np.invert to the array as
+        # given: on a 0/1 integer array that is the bitwise complement -- outside what C02 speaks about)
+        inv = bool(v.get("mask_invert")) and lay not in ("uint8", "int_f", "float") and \
+            (bool(lay) or v.get("mask_arg", "ndarray") in ("ndarray", "list"))
+        b = np.array(bits2d, dtype=bool)
+        if inv:
+            b = ~b
+        ikw = {"invert": True} if inv else ({"invert": False} if v.get("explicit_flags") else {})
+        if lay == "from_mask2d":  # a structure built from another structure (of ANOTHER geometry)
+            inner = aa.Mask2D(mask=b, pixel_scales=(7.0, 0.375), origin=(-3.5, 11.25))
+            return aa.Mask2D(mask=inner, pixel_scales=sc, **okw, **ikw)
+        if lay:
+            return aa.Mask2D(mask=lay_mask(b, lay), pixel_scales=sc, **okw, **ikw)
+        return aa.Mask2D(mask=mask_arg(b.tolist(), v.get("mask_arg", "ndarray")), pixel_scales=sc, **okw, **ikw)
 
     def _impl_geom(self, aa, case, ctx=None, opts=None):
         from autoarray.geometry import geometry_util
@@ -1366,13 +2146,14 @@ class C02(PropertyCheck):
         if "geometry" in reuse and ctx.get("g_key") == gkey:
             mask, g = ctx["gmask"], ctx["g"]
         else:
+            shp = self._shape_arg(H, W, v["shape_kind"]) if v.get("shape_kind") else \
+                self._seq(ctx, opts, "shape", (H, W), v.get("seq", "tuple"))
             if v.get("mask_ctor", "all_false") == "all_false":
-                mask = aa.Mask2D.all_false(shape_native=self._seq(ctx, opts, "shape", (H, W), v.get("seq", "tuple")),
-                                           pixel_scales=sc, **okw)
+                mask = aa.Mask2D.all_false(shape_native=shp, pixel_scales=sc, **okw,
+                                           **({"invert": False} if v.get("explicit_flags") else {}))
             else:
-                mask = aa.Mask2D(mask=mask_arg([[False] * W for _ in range(H)], v.get("mask_arg", "ndarray")),
-                                 pixel_scales=sc, **okw)
-            g = Geometry2D(shape_native=(H, W), pixel_scales=sc, **okw) if route == "geometry_obj" else mask.geometry
+                mask = self._mask2d(aa, [[False] * W for _ in range(H)], v, sc, okw)
+            g = Geometry2D(shape_native=shp, pixel_scales=sc, **okw) if route == "geometry_obj" else mask.geometry
             if ctx is not None:
                 ctx.update({"g_key": gkey, "gmask": mask, "g": g})
         vals, pseq = v.get("vals", "pylist"), v.get("point_seq", "tuple")
@@ -1381,8 +2162,13 @@ class C02(PropertyCheck):
         pix = [seq_of([num(a, pm), num(b, pm)], pseq) for a, b in case["pixels"]]
         ukw = dict(shape_native=(H, W), pixel_scales=sc_t, origin=org_t)
 
+        play = v.get("points_layout")
+
         def qgrid(pairs, slot):
-            a = arr_of(pairs, vals)
+            a = lay_points(arr_of(pairs, vals), play)
+            if play == "native3d" and isinstance(a, np.ndarray) and a.ndim == 2 and len(a):
+                a = a.reshape(1, len(a), 2)  # the query grid handed over in its native (1, N, 2) form
+            self._keep(opts, a)
             old = ctx.get("qg_" + slot) if ctx is not None else None
             if ("qgrid" in reuse and old is not None and isinstance(a, np.ndarray) and a.dtype == np.float64
                     and np.asarray(old.array).dtype == np.float64 and len(old) == len(a)):
@@ -1395,13 +2181,17 @@ class C02(PropertyCheck):
                 qg = aa.Grid2D.no_mask(values=a, shape_native=(1, len(pairs)), pixel_scales=1.0)
             else:
                 qg = aa.Grid2D(values=a, mask=aa.Mask2D.all_false(shape_native=(1, len(pairs)), pixel_scales=1.0))
+            if play == "from_grid2d":  # a structure built from another structure (what `Grid2D.slim` does)
+                qg = aa.Grid2D(values=qg, mask=qg.mask)
             if ctx is not None:
                 ctx["qg_" + slot] = qg
+            self._keep(opts, qg)
             return qg
 
         if opts.get("decoy"):
             self._read_properties(mask)
             self._read_properties(g)
+        self._keep(opts, mask)
         obs = {}
         arr = lambda o: np.asarray(o.array if hasattr(o, "array") else o)
 
@@ -1414,7 +2204,8 @@ class C02(PropertyCheck):
                 "extent": qlist(g.extent)})
 
         def g_grid():
-            obs["grid"] = self._read(opts, lambda: aa.Grid2D.from_mask(mask=mask), lambda o: pairs_q(arr(o)))
+            obs["grid"] = self._read(opts, lambda: aa.Grid2D.from_mask(mask=mask, **self._over_sampling(aa, v)),
+                                     lambda o: pairs_q(arr(o)))
 
         def g_centre_roundtrip():
             obs["centre_roundtrip"] = [
@@ -1438,10 +2229,11 @@ class C02(PropertyCheck):
             c_idx = lambda o: [int(x) for x in arr(o).ravel()]
             c_pq = lambda o: pairs_q(arr(o))
             if route == "util":
-                a = np.asarray(arr_of(case["points"], vals))
+                a = lay_points(np.asarray(arr_of(case["points"], vals)), play)
                 obs["centres"] = rd(lambda: geometry_util.grid_pixel_centres_2d_slim_from(grid_scaled_2d_slim=a, **ukw), c_cen)
                 obs["indexes"] = rd(lambda: geometry_util.grid_pixel_indexes_2d_slim_from(grid_scaled_2d_slim=a, **ukw), c_idx)
                 cont = geometry_util.grid_pixels_2d_slim_from(grid_scaled_2d_slim=a, **ukw)
+                self._keep(opts, a, cont)
                 obs["pixels"] = c_pq(cont)
                 obs["roundtrip"] = rd(lambda: geometry_util.grid_scaled_2d_slim_from(grid_pixels_2d_slim=cont, **ukw), c_pq)
             else:
@@ -1451,6 +2243,7 @@ class C02(PropertyCheck):
                 obs["centres"] = rd(lambda: g.grid_pixel_centres_2d_from(grid_scaled_2d=qg), c_cen)
                 obs["indexes"] = rd(lambda: g.grid_pixel_indexes_2d_from(grid_scaled_2d=qg), c_idx)
                 contg = g.grid_pixels_2d_from(grid_scaled_2d=qg)
+                self._keep(opts, contg)
                 obs["pixels"] = c_pq(contg)
                 obs["roundtrip"] = rd(lambda: g.grid_scaled_2d_from(grid_pixels_2d=contg), c_pq)
 
@@ -1459,13 +2252,16 @@ class C02(PropertyCheck):
                 return
             obs["scaled"] = [qlist(g.scaled_coordinates_2d_from(p)) for p in pix]
             if route == "util":
-                a = np.asarray(arr_of(case["pixels"], vals))
+                a = lay_points(np.asarray(arr_of(case["pixels"], vals)), play)
                 gs = geometry_util.grid_scaled_2d_slim_from(grid_pixels_2d_slim=a, **ukw)
                 rt = geometry_util.grid_pixels_2d_slim_from(grid_scaled_2d_slim=gs, **ukw)
+                self._keep(opts, a, gs, rt)
             else:
                 gsg = g.grid_scaled_2d_from(grid_pixels_2d=qgrid(case["pixels"], "pixels"))
                 gs = gsg.array
-                rt = g.grid_pixels_2d_from(grid_scaled_2d=gsg).array
+                rtg = g.grid_pixels_2d_from(grid_scaled_2d=gsg)
+                rt = rtg.array
+                self._keep(opts, gsg, rtg)
             obs["grid_scaled"] = pairs_q(gs)
             obs["roundtrip_p"] = pairs_q(rt)
 
@@ -1498,22 +2294,30 @@ class C02(PropertyCheck):
             self._edit_in_place(mask, ctx["mask_bits"], bits2d, opts.get("edit_style", "pixel"))
         elif opts.get("via_all_false") and not m_np.any():
             mask = aa.Mask2D.all_false(shape_native=(H, W), pixel_scales=sc, **okw)
-        else:
+        elif large:
             mask = aa.Mask2D(mask=mask_arg(bits2d, v.get("mask_arg", "ndarray")), pixel_scales=sc, **okw)
+        else:
+            mask = self._mask2d(aa, bits2d, v, sc, okw)
         if ctx is not None:
             ctx.update({"mask_key": mkey, "mask": mask, "mask_bits": bits2d})
         if opts.get("decoy"):
             self._read_properties(mask)
+        self._keep(opts, mask)
+        osk = self._over_sampling(aa, v)
+        ulay = v.get("mask_layout") if v.get("mask_layout") != "from_mask2d" else None
+        shp = self._shape_arg(H, W, v["shape_kind"]) if v.get("shape_kind") else None
         P = (lambda o: NPArr(np.asarray(o.array if hasattr(o, "array") else o, dtype=float).reshape(-1, 2))) \
             if large else (lambda o: pairs_q(np.asarray(o.array if hasattr(o, "array") else o)))
         thunks = {
-            "from_mask": lambda: aa.Grid2D.from_mask(mask=mask),
+            "from_mask": lambda: aa.Grid2D.from_mask(mask=mask, **osk),
             "unmasked": lambda: mask.derive_grid.unmasked,
             "all_false": lambda: mask.derive_grid.all_false,
             "uniform": lambda: aa.Grid2D.uniform(
-                shape_native=self._seq(ctx, opts, "shape", (H, W), v.get("seq", "tuple")), pixel_scales=sc, **okw),
+                shape_native=shp if shp is not None else self._seq(ctx, opts, "shape", (H, W), v.get("seq", "tuple")),
+                pixel_scales=sc, **okw, **osk),
             "util": lambda: grid_2d_util.grid_2d_slim_via_mask_from(
-                mask_2d=np.array(m_np, dtype=bool), pixel_scales=sc_t, origin=org_t),
+                mask_2d=self._kept(opts, lay_mask(m_np, ulay) if ulay else np.array(m_np, dtype=bool)),
+                pixel_scales=sc_t, origin=org_t),
         }
         obs = {}
         for name in self._ordered(GRID_OBS, opts):
@@ -1535,6 +2339,10 @@ class C02(PropertyCheck):
         marg = v.get("mask_arg", "ndarray")
         mb = [c == "1" for c in bits]
         m = mb if marg == "list" else [int(b) for b in mb] if marg == "int_list" else np.array(mb, dtype=bool)
+        inv = bool(v.get("mask_invert")) and v.get("mask_layout") not in ("uint8", "float")
+        if v.get("mask_layout") in ("strided", "readonly", "uint8", "float") or inv:
+            m = lay_mask(~np.array(mb, dtype=bool) if inv else mb, v.get("mask_layout"))
+        ikw = {"invert": True} if inv else {}
         okw = {} if (v.get("omit_defaults") and F(case["origin"]) == 0) else {"origin": (o,)}
         sc = float(F(case["scale"])) if v.get("scalar_scales") else (s,)
         mkey = ("grid1d", n, case["scale"], case["origin"])
@@ -1542,11 +2350,12 @@ class C02(PropertyCheck):
             m1 = ctx["m1"]
             self._edit_in_place(m1, ctx["m1_bits"], mb, opts.get("edit_style", "pixel"))
         else:
-            m1 = aa.Mask1D(mask=m, pixel_scales=sc, **okw)
+            m1 = aa.Mask1D(mask=m, pixel_scales=sc, **okw, **ikw)
         if ctx is not None:
             ctx.update({"m1_key": mkey, "m1": m1, "m1_bits": mb})
         if opts.get("decoy"):
             self._read_properties(m1)
+        self._keep(opts, m1, m)
         ipm = "int" if v.get("vals") in ("int64", "pyint") else "float"
         L = (lambda o_: NPArr(np.asarray(o_.array if hasattr(o_, "array") else o_, dtype=float).ravel())) if large \
             else (lambda o_: qlist(np.asarray(o_.array if hasattr(o_, "array") else o_)))
@@ -1575,15 +2384,25 @@ class C02(PropertyCheck):
         H, W = case["shape"]
         v, sc, sc_t, okw = self._geometry_args(case, ctx, opts)
         pm, sq = v.get("params", "float"), v.get("seq", "tuple")
+        sk = v.get("scalar_kind", "py")
+        ske = "np64" if sk in ("np64", "np0d") else "py"
         cen_t = tuple(num(x, pm) for x in case["centre"])
-        kw = dict(shape_native=self._seq(ctx, opts, "shape", (H, W), sq), pixel_scales=sc, **okw)
-        if not (v.get("omit_defaults") and all(F(x) == 0 for x in case["centre"])):
-            kw["centre"] = self._seq(ctx, opts, "centre", cen_t, sq)
-        if v.get("explicit_flags"):
+        shp = self._shape_arg(H, W, v["shape_kind"]) if v.get("shape_kind") else \
+            self._seq(ctx, opts, "shape", (H, W), sq)
+        kw = dict(shape_native=shp, pixel_scales=sc, **okw)
+        cm = v.get("centre_mode", "auto")
+        czero = all(F(x) == 0 for x in case["centre"])
+        if not (czero and (cm == "omit" or (cm == "auto" and v.get("omit_defaults")))):
+            cpm = "int" if cm == "int" else "float" if cm == "explicit" else pm
+            kw["centre"] = self._seq(ctx, opts, "centre", [self._sk(num(x, cpm), ske) for x in case["centre"]], sq)
+        inverted = bool(v.get("invert"))
+        if inverted:
+            kw["invert"] = True  # documented: the bools of the mask are inverted; complemented back below
+        elif v.get("explicit_flags"):
             kw["invert"] = False
         ukw = dict(shape_native=(H, W), pixel_scales=sc_t, centre=cen_t)
         ctor = case["ctor"]
-        g = lambda k: num(case[k], pm)
+        g = lambda k: self._sk(num(case[k], pm), sk)
         if ctor == "circular":
             fm = lambda: aa.Mask2D.circular(radius=g("radius"), **kw)
             fu = lambda: mask_2d_util.mask_2d_circular_from(radius=g("radius"), **ukw)
@@ -1624,9 +2443,12 @@ class C02(PropertyCheck):
                 obs["util_mask"] = self._read(opts, fu, lambda u: mask_json(np.asarray(u, dtype=bool)))
             else:
                 m = fm()
-                obs["mask"] = mask_json(np.asarray(m, dtype=bool))
+                mb_ = np.asarray(m, dtype=bool)
+                obs["mask"] = mask_json(~mb_ if inverted else mb_)
                 obs["origin"], obs["scales"] = qlist(m.origin), qlist(m.pixel_scales)
-                if opts.get("scribble"):
+                if opts.get("scribble") == "all":
+                    self._keep(opts, m)
+                elif opts.get("scribble"):
                     self._scribble(m)
         return obs
 
@@ -1726,6 +2548,8 @@ class C02(PropertyCheck):
         kind = case["kind"]
         if kind == "history":  # every step is compared with the model of a FRESH object in that step's state
             return [r for st in case["steps"] for r in self.model_requests(st["case"], None)]
+        if kind == "decade":  # the model is run on the SCALED world (exact rationals)
+            return self.model_requests(self._dec_scaled(case), None)
         if case.get("large"):
             return []  # oracle-only: the vectorised oracle judges the implementation's output directly
         if kind == "geom":
@@ -1759,6 +2583,8 @@ class C02(PropertyCheck):
                 out.append(self.model_obs(st["case"], responses[k:k + n]))
                 k += n
             return {"steps": out}
+        if case["kind"] == "decade":
+            return self.model_obs(self._dec_scaled(case), responses)
         for r in responses:
             if "err" in r:
                 return {"err": r["err"]}
@@ -1782,6 +2608,29 @@ class C02(PropertyCheck):
         return {"mask": R[0]["mask"], "origin": case["origin"], "scales": case["scales"],
                 "_quantities": R[0]["quantities"]}
 
+    @staticmethod
+    def _leaves(x):
+        if isinstance(x, (list, tuple)):
+            return sum(C02._leaves(y) for y in x)
+        if isinstance(x, dict):
+            return sum(C02._leaves(y) for y in x.values())
+        return 1
+
+    def _diff(self, cmp, io, mo):
+        """`cmp.diff(io, mo)` for two observation dicts, with a fast path: an entry whose two sides are identical
+        (same exact "p/q" strings throughout -- the usual case) is counted as exact leaf by leaf without parsing it"""
+        if not (isinstance(io, dict) and isinstance(mo, dict)) or set(io) != set(mo):
+            return cmp.diff(io, mo)
+        for k in sorted(io):
+            a, b = io[k], mo[k]
+            if isinstance(a, list) and a == b:
+                cmp.exact += self._leaves(a)
+                continue
+            d = cmp.diff(a, b, f"$.{k}")
+            if d:
+                return d
+        return None
+
     def compare(self, case, impl_obs, model_obs, cmp):
         if "err" in impl_obs or "err" in model_obs:
             return cmp.diff(impl_obs, model_obs)
@@ -1792,6 +2641,12 @@ class C02(PropertyCheck):
                 if d:
                     return f"history step {k + 1}/{len(case['steps'])}: {d}"
             return None
+        if kind == "decade":
+            # both observations are brought back to the units of the base case by exact rational division: the
+            # tolerance (1e-9, floor 1) and the tie bands are then relative to the magnitude of the scaled world
+            base, f = case["base"], self._dec_factor(case)
+            d = self.compare(base, unscale_obs(base["kind"], impl_obs, f), unscale_obs(base["kind"], model_obs, f), cmp)
+            return f"world scaled by 2^{case['k']} (shown in base units): {d}" if d and case["k"] else d
         if kind == "geom":
             mo = {k: v for k, v in model_obs.items() if not k.startswith("_")}
             io = dict(impl_obs)
@@ -1800,7 +2655,7 @@ class C02(PropertyCheck):
                 for key in ("pix_a", "centres", "indexes", "snap"):
                     io[key] = [None if f else v for f, v in zip(flags, io[key])]
                     mo[key] = [None if f else v for f, v in zip(flags, mo[key])]
-            return cmp.diff(io, mo)
+            return self._diff(cmp, io, mo)
         if kind == "grid1d":
             io, mo = dict(impl_obs), dict(model_obs)
             n = len(case["bits"])
@@ -1808,7 +2663,7 @@ class C02(PropertyCheck):
             flags = [near_integer((F(p) - (o - n * s / 2)) / s) for p in case["points"]]
             io["pix"] = [None if f else v for f, v in zip(flags, io["pix"])]
             mo["pix"] = [None if f else v for f, v in zip(flags, mo["pix"])]
-            return cmp.diff(io, mo)
+            return self._diff(cmp, io, mo)
         if kind == "shape":
             band = self._shape_band(case)
             mb = model_obs["mask"]["bits"]
@@ -1825,12 +2680,14 @@ class C02(PropertyCheck):
                 io[key] = {**impl_obs[key], "bits": hide(ib)}
                 mo[key] = {**model_obs["mask"], "bits": hide(mb)}
             return cmp.diff(io, mo)
-        return cmp.diff(impl_obs, model_obs)
+        return self._diff(cmp, impl_obs, model_obs)
 
     # ------------------------------------------------------------------ oracle (independent of the model)
     @staticmethod
     def _close(a, b, scale=1):
         a, b = fr(a), fr(b)
+        if a == b:
+            return True
         return abs(a - b) <= BAND * max(1, abs(a), abs(b), scale)
 
     def _shape_eval_exact(self, case):
@@ -1913,6 +2770,12 @@ class C02(PropertyCheck):
                     return False, (f"history step {k + 1}/{n} (after {self._history_desc(case, k)}): {d} -- a freshly "
                                    f"built object in this step's state satisfies the property")
             return True, ""
+        if kind == "decade":
+            base, f = case["base"], self._dec_factor(case)
+            ok, d = self.oracle(base, unscale_obs(base["kind"], obs, f))
+            if ok or not case["k"]:
+                return ok, d
+            return ok, f"world scaled by 2^{case['k']} (values shown in base units, i.e. divided by 2^{case['k']}): {d}"
         if case.get("large") and kind != "shape":
             return self._oracle_large(case, obs)
         if kind == "geom":
@@ -2287,6 +3150,8 @@ class C02(PropertyCheck):
     # ------------------------------------------------------------------ misc
     def nontrivial(self, case, obs):
         kind = case["kind"]
+        if kind == "decade":
+            return self.nontrivial(case["base"], obs)
         if kind == "history":
             return len(case["steps"]) >= 2 and any(
                 self.nontrivial(st["case"], o) for st, o in zip(case["steps"], obs["steps"]) if "err" not in o)
@@ -2303,6 +3168,15 @@ class C02(PropertyCheck):
 
     def shrink(self, case):
         kind = case["kind"]
+        if kind == "decade":
+            k = case["k"]
+            for k2 in (0, int(k / 2), k - (1 if k > 0 else -1)):
+                if abs(k2) < abs(k):
+                    yield {**case, "k": k2, "tag": case.get("tag", "dec").replace("decx_", "dec_") if abs(k2) <= 45
+                           else case.get("tag", "dec")}
+            for b in self.shrink(case["base"]):
+                yield {**case, "base": b}
+            return
         if kind == "history":
             steps = case["steps"]
             if len(steps) > 1:
@@ -2368,6 +3242,8 @@ class C02(PropertyCheck):
         return c
 
     def theorems_for(self, case):
+        if case["kind"] == "decade":
+            return self.theorems_for(case["base"])
         if case["kind"] == "history":
             return sorted({t for st in case["steps"] for t in self.theorems_for(st["case"])})
         if case["kind"] == "shape":
